@@ -1766,6 +1766,11 @@ class RepeatingEngine(Engine):
                 if self.kernelCompleted:
                     self.log.info("I am now considered finished! - No more executions")
             else:
+                # VV: Find out whether producers have finished *before* checking for new outputs. If the producers
+                # finish (and generate their last output) while this method is checking for new outputs, the next
+                # invocation of this method must get the chance to observe that last output.
+                producers_done_when_i_started = self._producers_are_finished
+
                 # By default assume new output - only check if requested
                 isNewOutput = True
 
@@ -1783,8 +1788,7 @@ class RepeatingEngine(Engine):
                             self.log.log(19, "All of my producers are done but I am checking their outputs")
                             isNewOutput = self.job.producersHaveOutputSinceDate(self.lastLaunched)
 
-                # VV: Find out whether producers have finished, then record launch-time
-                producers_done_when_i_started = self._producers_are_finished
+                # VV: Record launch-time
                 launch_time = datetime.datetime.now()
                 self._stateDict['lastKernelLaunchDate'] = launch_time
 
